@@ -246,6 +246,15 @@ def _construct(cfg, mods, env, log, nodes, edges):
                 st.reserve_get, st.reserve_put = rget, rput
     for (ei, s, d) in cfg["connects"]:
         edges[ei].connect(nodes[s], nodes[d])
+    for ei in cfg.get("reconnect", []):
+        if isinstance(ei, (list, tuple)):
+            # the documented `reconnect=True` moving an edge to other end points (implementation-only runs: the edge stays
+            # listed at the nodes it leaves, which the model does not represent)
+            edges[ei[0]].connect(nodes[ei[1]], nodes[ei[2]], reconnect=True)
+            continue
+        # ... and with the SAME end points: a no-op (the edge keeps its place in its nodes' edge lists)
+        e = cfg["edges"][ei]
+        edges[ei].connect(nodes[e["src"]], nodes[e["dst"]], reconnect=True)
 
 
 
@@ -549,6 +558,33 @@ def gen_config_conv_fanout(rng):
     return dict(model="factory", T=rng.choice([20, 30, 40]), nodes=nodes, edges=edges, connects=connects, order=order, model_skip=True)
 
 
+def gen_config_moved(rng):
+    """a factory in which one edge of a node with three or more edges on a side is moved to another node with `reconnect=True`
+    (implementation only; used by the reproducibility runs)"""
+    for _ in range(200):
+        c = gen_config(rng, with_fleet=False)
+        c.pop("reconnect", None)
+        outs3 = [(i, n_) for i, n_ in enumerate(c["nodes"]) if len(n_["outs"]) >= 3]
+        ins3 = [(i, n_) for i, n_ in enumerate(c["nodes"]) if len(n_["ins"]) >= 3]
+        if outs3:
+            i, n_ = rng.choice(outs3)
+            ei = rng.choice(n_["outs"][:-1])
+            others = [j for j, m in enumerate(c["nodes"]) if j != i and m["kind"] == "machine"]
+            if others:
+                c["reconnect"] = [[ei, rng.choice(others), c["edges"][ei]["dst"]]]
+        elif ins3:
+            i, n_ = rng.choice(ins3)
+            ei = rng.choice(n_["ins"][:-1])
+            others = [j for j, m in enumerate(c["nodes"]) if j != i and m["kind"] == "machine"]
+            if others:
+                c["reconnect"] = [[ei, c["edges"][ei]["src"], rng.choice(others)]]
+        if c.get("reconnect"):
+            c["model_skip"] = True
+            return c
+    c["model_skip"] = True
+    return c
+
+
 def gen_config_lazy(rng):
     """machines whose in- / out-edge policy is a user callable that looks at the state of the model (lowest-index edge that can
     serve now): the model has streams only, so these run on the implementation alone"""
@@ -649,7 +685,13 @@ def gen_config(rng, with_fleet=False):
             n["delays"] = n["delays"][:1]
     order = ["N%d" % i for i in range(len(nodes))] + ["E%d" % i for i in range(len(edges))]
     rng.shuffle(order)
-    return dict(model="factory", T=rng.choice([10, 20, 30, 40, 10, 20, 30, 40, 3]), nodes=nodes, edges=edges, connects=connects, order=order)
+    cfg = dict(model="factory", T=rng.choice([10, 20, 30, 40, 10, 20, 30, 40, 3]), nodes=nodes, edges=edges, connects=connects, order=order)
+    if rng.random() < 0.2:
+        # re-connect (same end points) an edge of a node with several edges on one side, preferably not the last of them
+        cand = [e_ for n_ in nodes for side in ("ins", "outs") if len(n_[side]) > 1 for e_ in n_[side][:-1]]
+        if cand:
+            cfg["reconnect"] = sorted(set(rng.sample(cand, min(len(cand), rng.choice([1, 1, 2])))))
+    return cfg
 
 
 def gen_config_sc(rng):
